@@ -158,6 +158,16 @@ def run(rep: core.Report):
     rep.note("Not decided: that svecs are the minimum-image vectors (C05), equality with a closed-form crystal, NAC paths (C08).")
 
 
+_run_main = run
+
+
+def run(rep: core.Report):
+    from rules import shared_trunc
+
+    _run_main(rep)
+    shared_trunc.run(rep, "R02g")
+
+
 def selftest():
     V = []
     b = lambda name, file, old, new, rule, expect="", **kw: V.append(dict(name=name, kind="break", file=file, old=old, new=new, rule=rule, expect=expect, **kw))
@@ -171,4 +181,7 @@ def selftest():
     b("shortest vectors converted with inv(primitive matrix) untransposed", "phonopy/structure/cells.py", "        trans_mat_float = np.dot(supercell_bases, np.linalg.inv(primitive_bases))", "        trans_mat_float = np.linalg.inv(self._primitive_matrix)", "R02f", "_get_smallest_vectors")
     n("image selection written positively", DYN, "        if (s2p_map[k] != p2s_map[j]) {\n            continue;\n        }\n        get_dm(dm, num_patom, num_satom, fc, q, svecs, multi, p2s_map,\n               charge_sum, i, j, k);", "        if (s2p_map[k] == p2s_map[j]) {\n            get_dm(dm, num_patom, num_satom, fc, q, svecs, multi, p2s_map,\n                   charge_sum, i, j, k);\n        }")
     n("forward phase accumulated with 2 pi inside", DYN, "            phase += q[m] * svecs[adrs + l][m];\n        }\n        cos_phase += cos(phase * 2 * PI) / m_pair;\n        sin_phase += sin(phase * 2 * PI) / m_pair;", "            phase += 2 * PI * q[m] * svecs[adrs + l][m];\n        }\n        cos_phase += cos(phase) / m_pair;\n        sin_phase += sin(phase) / m_pair;")
+    from rules import shared_trunc
+
+    shared_trunc.variants(b, None, "R02g")
     return V
